@@ -101,7 +101,7 @@ io_status_t PacketTunnelIOGateway :: DoInputImplementation(AbstractGatewayMessag
 //printf("  CHECK:  offset=" UINT32_FORMAT_SPEC "/" UINT32_FORMAT_SPEC " %s\n", offset, rs->_offset, (offset==rs->_offset)?"":"DISCONTINUITY!!!");
                   if ((messageID == rs->_messageID)&&(totalSize == rsSize)&&(offset == rs->_offset)&&(WillUnsignedAddOverflow(offset, chunkSize)==false)&&(offset+chunkSize <= rsSize))
                   {
-                     memcpy(rs->_buf()->GetBuffer()+offset, unflat.GetCurrentReadPointer(), chunkSize);
+                     if (chunkSize > 0) memcpy(rs->_buf()->GetBuffer()+offset, unflat.GetCurrentReadPointer(), chunkSize);  // (a zero-byte ByteBuffer's GetBuffer() is NULL)
                      rs->_offset += chunkSize;
                      if (rs->_offset == rsSize)
                      {
